@@ -81,6 +81,22 @@ fn rw_family<S: Strat>(out: &mut Vec<Inst>, fill: bool) {
         out.push(inst(format!("rw2:{}:{}", path, m), core, mode, 3, "R1{load..} || R2{load..} || W{store}", move || {
             h_core::rw::<S>(&RwCfg { readers: 2, loads: 1, fill, writers: vec![vec![Store]], consume: false })
         }));
+        if mode == Fresh && path == "nofast" {
+            // The same three threads one preemption deeper, without stale reads: the schedules in
+            // which a helper is itself helped inside its nested load and a third writer is cut
+            // off between two nodes of its walk (seeded C02-3) need three preemptions.
+            let mut x = inst(
+                format!("ww_deep:{}", path),
+                &["C01", "C02"],
+                mode,
+                3,
+                "R{load,deref,drop} || W1{store} || W2{swap, keep result}, all on the fallback path, 3 preemptions",
+                move || h_core::rw::<S>(&RwCfg { readers: 1, loads: 1, fill, writers: vec![vec![Store], vec![Swap]], consume: true }),
+            );
+            x.pk_quick = vec![(3, 0)];
+            x.pk_thorough = vec![(3, 0)];
+            out.push(x);
+        }
         out.push(inst(
             format!("ww:{}:{}", path, m),
             &["C01", "C02", "C03", "C04", "C07", "C09", "C13"],
@@ -219,17 +235,21 @@ fn more_family<
             out.push(x);
         }
         if mode == Fresh {
-            let mut x = inst(
-                format!("help_adv:{}", path),
-                &["C01", "C02", "C03", "C12"],
-                mode,
-                4,
-                "R{load, load} || W{store} interleaved step by step (3 preemptions) + W2{store} as one complete call placed anywhere",
-                move || h_more::help_adv::<S>(fill),
-            );
-            x.k = 1;
-            x.p_with_k = Some(3);
-            out.push(x);
+            for r_first in [false, true] {
+                let mut x = inst(
+                    format!("help_adv{}:{}", if r_first { "r" } else { "" }, path),
+                    &["C03", "C12"],
+                    mode,
+                    4,
+                    "R{load, load} || W{store} interleaved step by step (3 preemptions) + W2{store} as one complete call placed anywhere; the reader's node is the newest / (help_advr) the oldest of the list",
+                    move || h_more::help_adv::<S>(fill, r_first),
+                );
+                x.k = 1;
+                x.p_with_k = Some(3);
+                // the second list order doubles the cost and has not caught anything the first misses
+                x.thorough_only = r_first;
+                out.push(x);
+            }
         }
         if mode == Fresh {
             for tw in [false, true] {
@@ -412,6 +432,14 @@ fn more_family<
             3,
             "T1{load, exit} || T2{first use: load_full} || W{store}",
             move || h_more::churn_par::<S>(),
+        ));
+        out.push(inst(
+            format!("churn_two:{}", path),
+            &["C01", "C02", "C10", "C11", "C13"],
+            Fresh,
+            3,
+            "T0{load, exit} done; X{first use: load, drop} || Y{first use: load, drop} || W{store}",
+            move || h_more::churn_two::<S>(),
         ));
         for ww in [false, true] {
             out.push(inst(
